@@ -117,7 +117,7 @@ impl Check for C11Check {
     }
     fn cases(&self, tier: Tier) -> u64 {
         match tier {
-            Tier::Quick => 160,
+            Tier::Quick => 320,
             Tier::Thorough => 3_000,
         }
     }
